@@ -392,3 +392,24 @@ class WireMonitor:
             else:
                 out.append(("client->server" if c else "server->client", ln))
         return out
+
+
+async def server_keeps_a_dead_connection(env, sid):
+    """Logical evidence for "this connection will never be served": after the event loop has had every chance to run the
+    cleanup (the delay is virtual), the server's registry still holds, for this sid, a service whose websocket is closed.
+    Returns an explanation or None (also None when the registry cannot be inspected)."""
+    try:
+        await settle(200)
+        mgr = env["connector"]._sse_service_manager
+        reg = getattr(mgr, "_service_dict", None)
+        if not isinstance(reg, dict) or sid not in reg:
+            return None
+        ws = getattr(reg[sid], "websocket", None)
+        if ws is not None and getattr(ws, "closed", False):
+            await settle(200)
+            if reg.get(sid) is not None and getattr(getattr(reg[sid], "websocket", None), "closed", False):
+                return ("the server still has a CLOSED connection registered for this service and keeps every later "
+                        "connection waiting for it")
+    except Exception:
+        return None
+    return None
